@@ -1876,6 +1876,38 @@ func c26EndToEnd(r *findings.Run) {
 	}
 	defer os.RemoveAll(filepath.Dir(setup.dataDir))
 
+	// ---- the stream protocol itself: a scripted changelog (records, a retraction, watermarks interleaved) served by
+	// the plugin must arrive event by event, in order (stream_native prints records and watermarks as they come)
+	{
+		res := runner.RunBinary(sqlArgs("SELECT * FROM mydb.vstream v", "stream_native", true), nil, setup.env...)
+		r.Eval(1)
+		ts := func(sec int) time.Time { return time.Unix(int64(sec), 0).UTC() }
+		rec := func(i int, retraction bool, sec int) string {
+			sign := "+"
+			if retraction {
+				sign = "-"
+			}
+			return fmt.Sprintf("{%s%s| %d |}", sign, ts(sec).Format(time.RFC3339), i)
+		}
+		wm := func(sec int) string { return fmt.Sprintf("{~%s}", ts(sec)) }
+		want := []string{wm(1), rec(1, false, 2), wm(2), rec(2, false, 3), rec(1, true, 3), wm(3), wm(4), rec(3, false, 5), wm(5)}
+		var got []string
+		for _, l := range strings.Split(res.Out, "\n") {
+			if strings.TrimSpace(l) != "" {
+				got = append(got, strings.TrimSpace(l))
+			}
+		}
+		cs := map[string]interface{}{"sql": "SELECT * FROM mydb.vstream v", "mode": "stream_native", "got": got, "want": want, "exit": res.Exit, "stderr": oneLineC04(res.Err)}
+		if res.Exit != 0 || res.Crash != "" || res.Hang {
+			r.Violation("C26/e2e/stream/fails", fmt.Sprintf("SELECT * FROM mydb.vstream (-o stream_native) failed: exit %d %s", res.Exit, oneLineC04(res.Err+res.Crash)), cs)
+		} else if strings.Join(got, "\n") != strings.Join(want, "\n") {
+			r.Violation("C26/e2e/stream/events-differ", fmt.Sprintf("the plugin sent %v, octosql received %v", want, got), cs)
+		} else {
+			r.Nontrivial("vstream")
+			r.Outcome("e2e stream: records, retraction and watermarks arrive in order")
+		}
+	}
+
 	tp := &refsql.Table{Path: "mydb.t", Alias: "t", Cols: c01Cols, Rows: conv}
 	tn := &refsql.Table{Path: filepath.Join(setup.dataDir, "t.json"), Alias: "t", Cols: c01Cols, Rows: conv}
 
